@@ -166,3 +166,97 @@ def o11_6(tier):
             ctx.ensure(ctx.Not(member(ctx, keys, r)), "fresh key")
         return h
     return [(f"n={n}", mk(n)) for n in (0, 1, 2, 3, 4)]
+
+
+def _wf(ctx, vertices, edges, cells, label):
+    """mesh consistency, phrased over the three dictionaries as the repo returns them"""
+    vd = dict(ctx.list_of(vertices))
+    ed = dict(ctx.list_of(edges))
+    cd = dict(ctx.list_of(cells))
+    ends = {vid: [] for vid in vd}
+    ok_ends = True
+    for eid, e in ed.items():
+        ctx.ensure(ctx.eq(ctx.get(e, "id"), eid), f"{label}: edge {eid} stored under its own id")
+        for v in (ctx.get(e, "v1"), ctx.get(e, "v2")):
+            vid = ctx.get(v, "id")
+            if vid not in vd or vd[vid] is not v:
+                ok_ends = False
+            else:
+                ends[vid].append(eid)
+    ctx.ensure(ok_ends, f"{label}: every mesh edge joins two vertices of the vertex dictionary (the same objects)")
+    for vid, v in vd.items():
+        ctx.ensure(sorted(ctx.list_of(ctx.get(v, "ownEdges"))) == sorted(ends[vid]), f"{label}: vertex {vid} lists exactly the mesh edges ending at it")
+        mine = sorted(cid for cid, c in cd.items() if any(w is v for w in ctx.list_of(ctx.get(c, "vertices"))))
+        ctx.ensure(sorted(ctx.list_of(ctx.get(v, "ownCells"))) == mine, f"{label}: vertex {vid} lists exactly the cells whose cycle contains it")
+    joined = {frozenset((ctx.get(ctx.get(e, "v1"), "id"), ctx.get(ctx.get(e, "v2"), "id"))) for e in ed.values()}
+    for cid, c in cd.items():
+        cyc = [ctx.get(w, "id") for w in ctx.list_of(ctx.get(c, "vertices"))]
+        ctx.ensure(len(cyc) >= 3 and len(set(cyc)) == len(cyc), f"{label}: cell {cid} is a cycle of at least three distinct vertices")
+        ctx.ensure(all(frozenset((a, b)) in joined for a, b in zip(cyc, cyc[1:] + cyc[:1])), f"{label}: consecutive vertices of cell {cid} are joined by a mesh edge")
+        ctx.ensure(all(w in vd for w in cyc), f"{label}: cell {cid} uses vertices of the dictionary")
+    pos = {vid: (ctx.get(v, "x"), ctx.get(v, "y")) for vid, v in vd.items()}
+    cyc = {cid: [ctx.get(w, "id") for w in ctx.list_of(ctx.get(c, "vertices"))] for cid, c in cd.items()}
+    pairs = sorted(sorted((ctx.get(ctx.get(e, "v1"), "id"), ctx.get(ctx.get(e, "v2"), "id"))) for e in ed.values())
+    return pos, cyc, pairs          # plain data only: the harness keeps no reference to a mesh object
+
+
+@obligation("O09.8", ["C09", "C11"], ["forsys.virtual_edges:generate_mesh", "forsys.virtual_edges:create_edges_new"],
+            "generate_mesh as a whole on small tissues with symbolic coordinates: the returned mesh is consistent (back-references both ways, "
+            "cell cycles joined by mesh edges), junctions and interface end points keep id and position, every long interface has ne+1 points "
+            "taken in order from its own points, short ones are copied, and a second pass with the same ne changes nothing", tier="Pn")
+def o09_8(tier):
+    from .shapes import SHAPES, vertex_ids
+
+    def two_cells(k):
+        """two cells glued along one interface: three interfaces join the same two junctions P, Q, all with k interior points"""
+        P, Q = 40, 41
+        sh, a, b = [300 + j for j in range(k)], [400 + j for j in range(k)], [500 + j for j in range(k)]
+        cycles = {8: [P] + a + [Q] + sh[::-1], 2: [P] + sh + [Q] + b[::-1]}
+        return cycles, dict(internal=[], external=[[P] + sh + [Q], [P] + a + [Q], [P] + b + [Q]], detached=[])
+
+    def with_detached(k):
+        """tri_star plus a cell that touches nothing (no junction on it): the resampling has no interface to keep for it"""
+        cycles, info = SHAPES["tri_star"](k)
+        cycles = dict(cycles)
+        cycles[66] = [601, 602, 603, 604]
+        return cycles, dict(info, detached=[66])
+    LOCAL = {"two_cells": two_cells, "tri_star+detached": with_detached}
+
+    def mk(shape, k, ne):
+        def h(ctx):
+            cycles, info = LOCAL[shape](k) if shape in LOCAL else SHAPES[shape](k)
+            coords = {vid: (ctx.real(f"x{vid}"), ctx.real(f"y{vid}")) for vid in vertex_ids(cycles)}
+            m = mk_mesh(ctx, coords, cycles)
+            gm = ctx.get(ctx.module("forsys.virtual_edges"), "generate_mesh")
+            v1, e1, c1, be1 = ctx.list_of(ctx.call(gm, m.vertices, m.edges, m.cells, ne=ne, replace_short_edges=False))
+            pos, cyc, pairs = _wf(ctx, v1, e1, c1, "first pass")
+            paths = info["internal"] + info["external"]
+            got = [ctx.list_of(p) for p in ctx.list_of(be1)]
+            ctx.ensure(len(got) == len(paths), "one resampled interface per interface of the tissue")
+            for p in paths:
+                want = min(len(p), ne + 1)
+                hit = [g for g in got if (g[0], g[-1]) in ((p[0], p[-1]), (p[-1], p[0])) and set(g) <= set(p) and len(g) == want]
+                ctx.ensure(len(hit) == 1, f"interface {p[0]}..{p[-1]} ({len(p)} points): resampled once, to {want} of its own points")
+                if len(hit) != 1:
+                    continue
+                g = hit[0] if hit[0][0] == p[0] else hit[0][::-1]
+                idx = [p.index(x) for x in g]
+                ctx.ensure(idx == sorted(idx) and len(set(idx)) == len(idx), f"interface {p[0]}..{p[-1]}: its points in their original order")
+            keep = {p[0] for p in paths} | {p[-1] for p in paths}
+            for vid in sorted(keep):
+                ctx.ensure(vid in pos and ctx.And(ctx.eq(pos[vid][0], coords[vid][0]), ctx.eq(pos[vid][1], coords[vid][1])),
+                           f"junction / end point {vid} keeps id and position")
+            detached = info.get("detached", [])
+            ctx.ensure(sorted(cyc) == sorted(c for c in cycles if c not in detached), "no cell with a junction is lost; a cell touching nothing is dropped as a whole")
+            ctx.ensure(not any(v in pos for c in detached for v in cycles[c]), "nothing of a dropped cell is left behind")
+            # second pass: nothing changes
+            v2, e2, c2, be2 = ctx.list_of(ctx.call(gm, v1, e1, c1, ne=ne, replace_short_edges=False))
+            pos2, cyc2, pairs2 = _wf(ctx, v2, e2, c2, "second pass")
+            ctx.ensure(sorted(pos2) == sorted(pos), "second pass: same vertices")
+            ctx.ensure(cyc2 == cyc, "second pass: same cell cycles")
+            ctx.ensure(pairs2 == pairs, "second pass: same mesh edges")
+        return h
+    fam = [("tri_star", 3, 2), ("tri_star_ear", 2, 2), ("double_y", 4, 3), ("two_cells", 4, 2), ("tri_star+detached", 2, 2)] if tier == "quick" else \
+          [("tri_star", 3, 2), ("two_cells", 4, 2), ("two_cells", 2, 3), ("tri_star+detached", 2, 2), ("tri_star", 6, 4), ("tri_star_ear", 2, 2), ("tri_star_ear", 4, 3), ("tri_star_two_ears", 3, 2), ("double_y", 4, 3),
+           ("four_fold", 3, 2), ("border_fan", 3, 2), ("tri_star_ear~v2", 3, 2), ("double_y~v1", 3, 2)]
+    return [(f"{s},k={k},ne={ne}", mk(s, k, ne)) for s, k, ne in fam]
